@@ -966,16 +966,22 @@ def exit_id(f: Fn, x: ast.AST) -> str:
     return '%s@%s' % (what, gt[-1] if gt else 'entry')
 
 
-def r15_2_do_nothing_exits(ctx, rid='R15.2'):
+def r15_2_do_nothing_exits(ctx, rid='R15.2', guards_only: bool = False):
+    """guards_only: just the clause "kind and presence are established before anything is written" (what makes a second application
+    through an alias find nothing to do)"""
     P = ctx.P
-    r = ctx.rule(rid, 'transforms are all-or-nothing: no node write can be followed by a do-nothing return or a raise; raises occur '
-                      'only where documented (duplicate key under strict, non-string key attribute)', floor=8)
+    if guards_only:
+        r = ctx.rule(rid, 'a transform that finds the attribute absent or already of the other kind writes nothing: every node write is '
+                          'dominated by the presence test and the kind test (a second run on an aliased node is a no-op)', floor=8)
+    else:
+        r = ctx.rule(rid, 'transforms are all-or-nothing: no node write can be followed by a do-nothing return or a raise; raises occur '
+                          'only where documented (duplicate key under strict, non-string key attribute)', floor=8)
     for name in TRANSFORMS:
         f = fn(P, NODE + name)
         ws = [(w, f.nid(w)) for w in node_writes(f)]
         ws = [(w, n) for w, n in ws if n is not None]
         exits = [x for x in f.returns() if x.value is None] + f.raises()
-        for x in exits:
+        for x in ([] if guards_only else exits):
             xn = f.nid(x)
             bad = [w for w, wn in ws if xn in f.cfg.reachable(wn) and wn != xn]
             kind = 'return' if isinstance(x, ast.Return) else 'raise'
@@ -984,7 +990,7 @@ def r15_2_do_nothing_exits(ctx, rid='R15.2'):
                     '%s: the %s at line %d can be reached after the node was already modified (%s at line %d): the node is left '
                     'half-transformed' % (name, 'silent return' if kind == 'return' else 'raise', x.lineno,
                                           norm(bad[0])[:40] if bad else '', bad[0].lineno if bad else 0))
-        for x in f.raises():
+        for x in ([] if guards_only else f.raises()):
             gt = f.guard_texts(x)
             documented = any(t == 'strict' for t in gt) or any('.is_scalar(str)' in t and t.startswith('not ') for t in gt)
             r.check(documented, '%s: raise under %s (documented)' % (name, [t for t in gt if t == 'strict' or 'is_scalar' in t]),
@@ -1196,9 +1202,9 @@ def r16_1_purity(ctx, rid='R16.1', roots=None, what='require_*'):
     r.done()
 
 
-def r16_2_kind_first(ctx):
+def r16_2_kind_first(ctx, rid='R16.2'):
     P = ctx.P
-    r = ctx.rule('R16.2', 'require_attribute* call require_mapping() before the first read of the pair list', floor=3)
+    r = ctx.rule(rid, 'require_attribute* call require_mapping() before the first read of the pair list', floor=3)
     for name in ('require_attribute', 'require_attribute_value', 'require_attribute_value_not'):
         f = fn(P, UNK + name)
         rm = [c for c in f.calls('require_mapping') if norm(c.func.value) == 'self' and f.live(c)]
